@@ -26,14 +26,20 @@ def setup_symbolic():
 
     L._DEFAULT_GAP_DTYPE = object
     L.LostSpan = L._LostSpan
-    _orig = S.array
+    import cogent3.core.new_sequence as NS
 
-    def _array(x, dtype=None, **kw):
-        if dtype is int:
-            dtype = object
-        return _orig(x, dtype=dtype, **kw)
+    def wrap(mod):
+        _orig = mod.array
 
-    S.array = _array
+        def _array(x, dtype=None, **kw):
+            if dtype is int:
+                dtype = object
+            return _orig(x, dtype=dtype, **kw)
+
+        mod.array = _array
+
+    wrap(S)
+    wrap(NS)
 
 
 class StubDb:
@@ -95,7 +101,7 @@ def to_parent(v, s0, e0):
     return lo + s0, lo + e0
 
 
-def mk(history, minus, nspans, partial, use_offset):
+def mk(history, minus, nspans, partial, use_offset, style="old"):
     ops = HISTORIES[history]
 
     def check(seq: str, f0s: int, f0e: int, f1s: int, f1e: int, a: int, b: int, c: int, d: int, off: int) -> bool:
@@ -109,14 +115,22 @@ def mk(history, minus, nspans, partial, use_offset):
         post: _
         """
         import cogent3.core.location as L
-        import cogent3.core.sequence as S
 
         _ = use_offset  # closure reference for the precondition
         if not W.PLAIN:
             L._lost_span_cache.clear()
         n = len(seq)
-        sv = S.SeqView(seq=seq, seqid="s", offset=off)
-        sq = S.DnaSequence(sv, name="s", check=False)
+        if style == "old":
+            import cogent3.core.sequence as S
+
+            sv = S.SeqView(seq=seq, seqid="s", offset=off)
+            sq = S.DnaSequence(sv, name="s", check=False)
+        else:
+            import cogent3.core.new_moltype as NM
+            import cogent3.core.new_sequence as S
+
+            sv = S.SeqView(seq=seq, alphabet=NM.DNA.most_degen_alphabet(), seqid="s", offset=off)
+            sq = S.DnaSequence(moltype=NM.DNA, seq=sv, name="s")
         spans = [(f0s, f0e), (f1s, f1e)][:nspans]
         db = StubDb([dict(seqid="s", biotype="gene", name="g", spans=[(s + off, e + off) for s, e in spans], strand="-" if minus else "+")])
         sq._annotation_db = db
@@ -169,6 +183,7 @@ ENCODED = [
     ("src/cogent3/core/sequence.py", ["Sequence.get_features", "Sequence.make_feature", "Sequence.parent_coordinates", "SliceRecordABC.absolute_position", "SliceRecordABC.relative_position", "Sequence.__getitem__", "NucleicAcidSequence.rc"]),
     ("src/cogent3/core/location.py", ["FeatureMap.from_locations", "_spans_from_locations", "FeatureMap.nucleic_reversed", "FeatureMap.__post_init__"]),
     ("src/cogent3/core/annotation.py", ["Feature.__init__", "Feature.reversed"]),
+    ("src/cogent3/core/new_sequence.py", ["Sequence.get_features", "Sequence.make_feature", "SliceRecordABC.absolute_position / relative_position (new-style copy)"]),
 ]
 BOUNDS = {
     "quick": ["parent length <= 5 (the code's `if not self` forces CrossHair to realise the length); features with 1 or 2 spans, both strands; histories slice, rc, slice+rc, rc+slice, slice+slice; offset 0 and symbolic 0..3; allow_partial True and False; view steps +-1",
@@ -181,7 +196,7 @@ ASSUMPTIONS = [
     "location.LostSpan memo cache bypassed",
     "a feature 'overlaps' by its hull (min start, max stop), as the db stores it",
 ]
-OUTSIDE = ["strided views", "alignment-level features and projection (get_projected_feature, Aligned.make_feature)", "new_sequence get_features (same algorithm, separate code: not yet encoded)", "degapping", "GFF / GenBank loaded dbs"]
+OUTSIDE = ["strided views", "alignment-level features and projection (get_projected_feature, Aligned.make_feature)", "degapping", "GFF / GenBank loaded dbs"]
 TRUSTED = ["the window / coordinate mapping in props/c04.py (uses the C01-verified view reading)"]
 
 
@@ -202,6 +217,9 @@ def obligations(tier):
                             continue
                         nm = f"{h}/{'minus' if minus else 'plus'}/{'partial' if partial else 'inside'}/n{nspans}/off{int(use_offset)}"
                         obs.append(Ob(nm, __name__, "mk", {"history": h, "minus": minus, "nspans": nspans, "partial": partial, "use_offset": use_offset}, timeout=1800, twins=("end", "hit"), group=h))
+                        # the new-style Sequence carries its own copy of this code
+                        if T or (h in ("rc_slice", "slice") and partial and (nspans == 2 or use_offset)):
+                            obs.append(Ob("new/" + nm, __name__, "mk", {"history": h, "minus": minus, "nspans": nspans, "partial": partial, "use_offset": use_offset, "style": "new"}, timeout=1800, twins=("end", "hit"), group=h))
     return obs
 
 
